@@ -19,11 +19,11 @@ TYPES = ["px", "py", "pz", "cxc", "cyc", "czc", "sc", "cx", "cy", "cz", "p", "s"
 AXN = {"x": 0, "y": 1, "z": 2}
 AXC = ["AX", "AY", "AZ"]
 MIN_A = 1e-5 * 1e-5
-# Findings whose repair in /repo is being validated by the coordinator: while a
-# signature is listed here (and has no known_findings.json entry) a hit is
-# logged as a note instead of failing the check.  Remove a signature once its
-# fix is committed: a regression is then reported as a VIOLATION again.
-PENDING_FIX = {"translator-sq-constant-term", "along-surface-zero-distance"}
+# Findings whose repair in /repo is pending: while a signature is listed here
+# (and has no known_findings.json entry) a hit is logged as a note instead of
+# failing the check.  Both C12 findings are fixed in /repo (9730bb5 translator,
+# 8462ce5 solve_along_surface), so the set is empty: a regression is a VIOLATION.
+PENDING_FIX = set()
 _gated_seen = set()
 
 
@@ -549,7 +549,7 @@ def check_eval(ctx, exe, n):
         else:
             same_pat = all((a < 1e300) == (b < 1e300) for a, b in zip(mints, ints))
             if not same_pat and ty in ("kx", "ky", "kz", "sq", "gq") and not on and mints[0] == 0 and ints[0] == INF:
-                # the model is solve_along_surface as coded (`< 0`); the implementation behaves like the repaired `<= 0`
+                # (only while the model was the pre-repair `< 0` variant)
                 ctx.count("along-surface-matches-repaired-model")
             elif not same_pat:
                 if not knife and not ill_conditioned(case):
@@ -754,7 +754,11 @@ def check_transforms(ctx, exe, n):
             dd = list(d)
             if r.random() < 0.5:
                 # tiny coefficients / offsets to exercise snapping
-                j = r.randrange(len(dd)); dd[j] = r.choice([1e-12, -1e-12, 0.0, -0.0]) if ty not in ("sc", "cxc", "cyc", "czc") else dd[j]
+                j = r.randrange(len(dd))
+                keep = ty in ("sc", "cxc", "cyc", "czc") or (ty == "p" and j < 3 and abs(dd[j]) > 1e-3) \
+                    or (ty in ("s", "cx", "cy", "cz", "kx", "ky", "kz") and j == len(dd) - 1)
+                if not keep:       # never destroy a unit normal or a radius / opening angle
+                    dd[j] = r.choice([1e-12, -1e-12, 0.0, -0.0])
             cases.append(("simpl", ty, dd, None, None, pts))
     # corpus: the SimpleQuadric translation witness (unit sphere at (1,0,0) as SQ, translated by (1,0,0))
     cases.insert(0, ("xlate", "sq", [1.0, 1.0, 1.0, -2.0, 0.0, 0.0, 0.0], None, [1.0, 0.0, 0.0],
@@ -822,8 +826,8 @@ def check_transforms(ctx, exe, n):
     for cmd, ty, d, R, tra, pts in cases:
         pl = "[" + "; ".join(v3(p) for p in pts) + "]"
         if cmd == "xlate":
-            exprs.append("run_xlate false %s %s %s" % (v3(tra), coq_surf(ty, d), pl))
-            exprs.append("run_xlate true %s %s %s" % (v3(tra), coq_surf(ty, d), pl))
+            exprs.append("run_xlate true %s %s %s" % (v3(tra), coq_surf(ty, d), pl))     # as coded (9730bb5)
+            exprs.append("run_xlate false %s %s %s" % (v3(tra), coq_surf(ty, d), pl))    # before the repair
         elif cmd == "xform":
             exprs.append("run_xform (TF (M3 %s %s %s) %s) %s %s" % (v3(R[0]), v3(R[1]), v3(R[2]), v3(tra), coq_surf(ty, d), pl))
         else:
@@ -903,11 +907,12 @@ def check_transforms(ctx, exe, n):
                     continue
                 nsig += 1
                 ctx.count("known-signature:" + sig)
-            # correspondence (for the translator: the model as coded, or the repaired variant)
+            # correspondence (for the translator: the model as coded; a match with the pre-repair
+            # variant only comes with the coefficient-oracle violation above)
             if mv_fixed is not None and not (TYPES[mv[0]] == ty2 and len(mv[1]) == len(d2) and
                                             all(abs(a - b) <= 1e-9 * abs(b) + 1e-10 * max([abs(x) for x in d2] + [1e-300]) for a, b in zip(mv[1], d2))):
                 mv = mv_fixed
-                ctx.count("translator-matches-repaired-model")
+                ctx.count("translator-matches-pre-repair-model")
             mcode, mdata = mv[0], mv[1]
             dscale = max([abs(x) for x in d2] + [1e-300])
             if TYPES[mcode] != ty2 or len(mdata) != len(d2) or \
